@@ -220,9 +220,6 @@ func VerifH_C26_Recreate() {
 	for round := 1; round <= 2; round++ {
 		log = nil
 		old := sub.SubscriptionID
-		for len(c.pausech) > 0 { // the publish loop (not running here) consumes pause signals
-			<-c.pausech
-		}
 		err = c.recreateSubscription(ctx, old)
 		vfAssert(err == nil, "recreating a subscription fails although the server accepts every request")
 		vfAssert(sub.SubscriptionID != old && c.subs[sub.SubscriptionID] == sub && c.subs[old] == nil && len(c.subs) == 1, "the recreated subscription is not registered under its new id only")
